@@ -143,7 +143,7 @@ PollDel(S, f, events) ==
            last == Len(S.parr)
        IN IF m2 # {} THEN [s |-> [S EXCEPT !.parr[i].m = m2], r |-> 0]
           ELSE [s |-> [S EXCEPT !.parr = IF i = last THEN SubSeq(@, 1, last - 1)
-                                           ELSE SubSeq([@ EXCEPT ![i] = @[last]], 1, last - 1)], r |-> 0]
+                                           ELSE SubSeq([S.parr EXCEPT ![i] = S.parr[last]], 1, last - 1)], r |-> 0]
 
 (* the add / del entry of struct eventop *)
 BackendAdd(S, f, old, events, et) ==
@@ -240,7 +240,7 @@ EvDel ==
           /\ st' = [R.s EXCEPT !.atwait = FALSE]
           \* event_del on a closed fd may report the failed kernel operation: left open
           /\ hist' = Append(hist, [a |-> "del", e |-> e,
-                                   o |-> IF st.open[st.ev[e].fd] THEN [r |-> 0] ELSE [x |-> 0]])
+                                   o |-> [r |-> IF st.open[st.ev[e].fd] THEN 0 ELSE [_any |-> TRUE]]])
 
 CloseFd ==
   /\ "close" \in Acts
@@ -285,5 +285,7 @@ Inv == TypeOK /\ InterestOK /\ CountsOK /\ PollArrayOK /\ ChangelistOK
 ----------------------------------------------------------------------------
 GenConstraint == Len(hist) <= D
 Emit == (Len(hist) = D /\ st.atwait) => PrintT(ToJson(hist))
+(* random long histories (simulation): every sufficiently long prefix that ends in a wait *)
+EmitSim == (Len(hist) >= D - 3 /\ st.atwait) => PrintT(ToJson(hist))
 StateView == st
 =============================================================================
